@@ -512,7 +512,7 @@ variable {m n k : ℕ}
     No trace inequality (von Neumann) is assumed: the proof needs Bessel and Cauchy–Schwarz only. -/
 theorem C02_nuclear
     (hex : ∀ Z : MatE m n, ∃ (k : ℕ) (u : Fin k → EuclideanSpace ℝ (Fin m)) (s : Fin k → ℝ)
-      (w : Fin k → EuclideanSpace ℝ (Fin n)), IsSVD outerM Z u s w)
+      (w : Fin k → EuclideanSpace ℝ (Fin n)), IsSVD ℝ outerM Z u s w)
     {lam : ℝ} (hlam : 0 < lam) (U : Fin m → Fin k → ℝ) (s : Fin k → ℝ) (Vh : Fin k → Fin n → ℝ)
     (hU : Orthonormal ℝ (colE U)) (hV : Orthonormal ℝ (rowE Vh)) (hs : ∀ l, 0 ≤ s l) :
     Cert Set.univ (nucNorm hex) lam (matE (usvMat U s Vh)) (matE (nuclearProx U s Vh lam)) := by
@@ -526,11 +526,41 @@ theorem C02_nuclear
   rw [e1, e2]
   exact cert_nuclear_matrix (fun _ _ _ _ _ h => nucNorm_eq isOuter_outerM hex h) hex hlam U s Vh hU hV hs
 
+/-- **`NuclearNorm.prox` on complex matrices** (real inner product `Re tr(AᴴB)`): the same statement; `u_l` are the columns of
+    `U`, `w_l` the conjugated rows of `Vh` (so that `U diag(s) Vh = Σ s_l u_l w_lᴴ`) -/
+theorem C02_nuclear_complex
+    (hex : ∀ Z : MatC m n, ∃ (k : ℕ) (u : Fin k → EuclideanSpace ℂ (Fin m)) (s : Fin k → ℝ)
+      (w : Fin k → EuclideanSpace ℂ (Fin n)), IsSVD ℂ outerC Z u s w)
+    {lam : ℝ} (hlam : 0 < lam) (U : Fin m → Fin k → ℝ × ℝ) (s : Fin k → ℝ) (Vh : Fin k → Fin n → ℝ × ℝ)
+    (hU : Orthonormal ℂ (colC (fun i l => toC (U i l)))) (hV : Orthonormal ℂ (rowConjC (fun l j => toC (Vh l j))))
+    (hs : ∀ l, 0 ≤ s l) :
+    Cert Set.univ (nucNorm hex) lam (matC (fun i j => toC (usvMatC U s Vh i j)))
+      (matC (fun i j => toC (nuclearProxC U s Vh lam i j))) := by
+  have key : ∀ t : Fin k → ℝ, (fun i j => toC ((∑ l, t l * (cmul (U i l) (Vh l j)).1, ∑ l, t l * (cmul (U i l) (Vh l j)).2)))
+      = fun i j => ∑ l, ((t l : ℝ) : ℂ) * (toC (U i l) * toC (Vh l j)) := by
+    intro t
+    funext i j
+    apply Complex.ext
+    · simp only [toC_re, toC_im, Complex.re_sum, Complex.mul_re, Complex.mul_im, Complex.ofReal_re, Complex.ofReal_im, cmul]
+      refine Finset.sum_congr rfl fun l _ => ?_
+      ring
+    · simp only [toC_re, toC_im, Complex.im_sum, Complex.mul_re, Complex.mul_im, Complex.ofReal_re, Complex.ofReal_im, cmul]
+      refine Finset.sum_congr rfl fun l _ => ?_
+      ring
+  have e1 : (fun i j => toC (usvMatC U s Vh i j)) = fun i j => ∑ l, ((s l : ℝ) : ℂ) * (toC (U i l) * toC (Vh l j)) := by
+    rw [← key s]; funext i j; simp only [usvMatC, vsum_eq]
+  have e2 : (fun i j => toC (nuclearProxC U s Vh lam i j))
+      = fun i j => ∑ l, ((max 0 (s l - lam) : ℝ) : ℂ) * (toC (U i l) * toC (Vh l j)) := by
+    rw [← key (fun l => max 0 (s l - lam))]; funext i j
+    simp only [nuclearProxC, nuclearSvProx, vsum_eq, maxP_eq]
+  rw [e1, e2]
+  exact cert_nuclear_matrixC hex hlam _ s _ hU hV hs
+
 /-- the sum of the singular values is independent of the thin SVD chosen (what makes "the nuclear norm" of the code,
     `sum(svd(x, compute_uv=False))`, a function of the matrix) -/
 theorem C02_nuclear_sum_sv_unique {k' : ℕ} {Z : MatE m n} {u : Fin k → EuclideanSpace ℝ (Fin m)} {s : Fin k → ℝ}
     {w : Fin k → EuclideanSpace ℝ (Fin n)} {u' : Fin k' → EuclideanSpace ℝ (Fin m)} {s' : Fin k' → ℝ}
-    {w' : Fin k' → EuclideanSpace ℝ (Fin n)} (h : IsSVD outerM Z u s w) (h' : IsSVD outerM Z u' s' w') :
+    {w' : Fin k' → EuclideanSpace ℝ (Fin n)} (h : IsSVD ℝ outerM Z u s w) (h' : IsSVD ℝ outerM Z u' s' w') :
     ∑ i, s i = ∑ j, s' j := sum_sv_unique isOuter_outerM h h'
 
 end Nuclear
@@ -640,7 +670,7 @@ example : Orthonormal ℝ (colE (fun i l : Fin 2 => if i = l then (1 : ℝ) else
 
 -- the SVD contract `hex` is satisfiable: every 1 × 1 matrix z is |z| · (1)(sign z)ᵀ
 example : ∀ Z : MatE 1 1, ∃ (k : ℕ) (u : Fin k → EuclideanSpace ℝ (Fin 1)) (s : Fin k → ℝ)
-    (w : Fin k → EuclideanSpace ℝ (Fin 1)), IsSVD outerM Z u s w := by
+    (w : Fin k → EuclideanSpace ℝ (Fin 1)), IsSVD ℝ outerM Z u s w := by
   intro Z
   refine ⟨1, fun _ => toLp 2 (fun _ => 1), fun _ => |Z (0, 0)|,
     fun _ => toLp 2 (fun _ => if Z (0, 0) < 0 then -1 else 1), ?_, ?_, fun _ => abs_nonneg _, ?_⟩
